@@ -77,6 +77,20 @@ Request(t, qs, early, out, mode) ==
        ELSE UNCHANGED <<inflight, deadline>>
     /\ UNCHANGED now
 
+\* A storm: the transactions ts ask at the same instant for a slot in every quota of qs; those in adm were admitted
+\* (and hold their slots), the others were refused.  Compact form of overlapping Request(.., "conc") steps:
+\* only the bound is required - all admitted ones together found room in every quota.
+Storm(ts, qs, adm) ==
+    LET cs == Range(Chains(qs)) IN
+    /\ last' = [ev |-> "storm", ts |-> ts, qs |-> qs, adm |-> adm]
+    /\ adm \subseteq ts
+    /\ \A t \in ts, q \in Quota : t \notin inflight[q]         \* (environment) ids in flight are distinct
+    /\ \A q \in cs : Cardinality(inflight[q]) + Cardinality(adm) <= Max[q]     \* Bounded
+    /\ inflight' = [q \in Quota |-> IF q \in cs THEN inflight[q] \cup adm ELSE inflight[q]]
+    /\ deadline' = [q \in Quota |-> IF q \in cs THEN [t \in Txn |-> IF t \in adm THEN now + Expiry[q] ELSE deadline[q][t]]
+                                   ELSE deadline[q]]
+    /\ UNCHANGED now
+
 \* the ways a transaction ends; each frees the slots of t and of nobody else (OnceOnly)
 Free(t) == inflight' = [q \in Quota |-> inflight[q] \ {t}]
 
